@@ -21,7 +21,8 @@ Record ocase := OCase {
   oc_seen : list Z;
   oc_final : list (nat * (bool * bool * bool) * bool * nat);   (* name class, has key/crt/meta, match, cert id *)
   oc_rwleft : nat; oc_last : bool; oc_held : nat; oc_recorded : nat;
-  oc_dead : bool     (* the driver found a request waiting for a lock that nobody held any more *)
+  oc_dead : bool;    (* the driver found a request waiting for a lock that nobody held any more *)
+  oc_after : nat     (* locks still held + still recorded after CleanUpOwnLocks has run at the end *)
 }.
 
 (** * Equality tests *)
@@ -208,8 +209,20 @@ Definition s4_ok (c : ocase) : bool :=
 Definition unlock_faulted (c : ocase) : bool :=
   existsb (fun o => is_unlock (o_op o) && (fault_eqb (o_fault o) FErr || fault_eqb (o_fault o) FPanic)) (oc_steps c).
 Definition rescued (c : ocase) : bool := oc_dead c.
+(** ... and whatever is still held (after a failed Unlock) is recorded, so that CleanUpOwnLocks
+    releases it: nothing is held or recorded after it has run (theorem [held_is_recorded]) *)
 Definition s9_ok (c : ocase) : bool :=
-  unlock_faulted c || (Nat.eqb (oc_held c) 0 && Nat.eqb (oc_recorded c) 0 && negb (rescued c)).
+  (unlock_faulted c || (Nat.eqb (oc_held c) 0 && Nat.eqb (oc_recorded c) 0 && negb (rescued c))) &&
+  Nat.eqb (oc_after c) 0.
+
+(** free-running runs (no gate, real goroutines on one FileStorage directory; only the issuer's
+    entry / exit are recorded, in the order of their time stamps): spans disjoint (S1), every caller
+    succeeded, storage was empty so exactly one issuance happened (S2), nothing held or recorded *)
+Definition is_iss_start (o : ostep) : bool := match o_op o with OIssS _ => Nat.eqb (o_out o) 0 | _ => false end.
+Definition free_ok (c : ocase) : bool :=
+  spans_ok [] (oc_steps c) && forallb (Z.eqb 0) (oc_results c) &&
+  Nat.eqb (count is_iss_start (oc_steps c)) 1 &&
+  Nat.eqb (oc_held c) 0 && Nat.eqb (oc_recorded c) 0.
 
 Definition spec_ok (c : ocase) : bool :=
   match oc_mode c with
@@ -218,11 +231,14 @@ Definition spec_ok (c : ocase) : bool :=
   | 2 => s2_ok c
   | 3 => s3_ok c
   | 4 => s4_ok c
+  | 6 => free_ok c
   | _ => s9_ok c
   end.
 
 Definition compares (c : ocase) : bool :=
-  match oc_mode c with 2 | 3 | 4 => false | _ => true end.
+  (* 7: C09's clause alone, for runs whose trace is not determined by the labels (doWithRetry's first
+     select with a context that is already cancelled: it may or may not run the attempt once) *)
+  match oc_mode c with 2 | 3 | 4 | 6 | 7 => false | _ => true end.
 
 (** * Wire *)
 Open Scope Z_scope.
@@ -282,8 +298,8 @@ Definition get_case : dec ocase :=
   res <- get_list get_z ;;
   sn <- get_list get_z ;;
   fin <- get_list get_final ;;
-  rw <- get_nat ;; la <- get_bool ;; held <- get_nat ;; rec <- get_nat ;; dead <- get_bool ;;
-  ret (OCase mode cfgs ini steps res sn fin rw la held rec dead).
+  rw <- get_nat ;; la <- get_bool ;; held <- get_nat ;; rec <- get_nat ;; dead <- get_bool ;; after <- get_nat ;;
+  ret (OCase mode cfgs ini steps res sn fin rw la held rec dead after).
 
 Definition check_line (l : list Z) : Z :=
   match decode get_case l with
